@@ -780,6 +780,16 @@ impl Object {
 	}
 }
 
+#[cfg(json_syntax_verif)]
+impl Object {
+	/// Verification hook (read-only): dumps the key index as a list of
+	/// `(first index, other indexes)` pairs, one per bucket, in no
+	/// particular order.
+	pub fn verif_index_dump(&self) -> Vec<(usize, Vec<usize>)> {
+		self.indexes.verif_dump()
+	}
+}
+
 pub type Iter<'a> = core::slice::Iter<'a, Entry>;
 
 pub struct IterMut<'a>(std::slice::IterMut<'a, Entry>);
